@@ -91,6 +91,7 @@ def decode(data: bytes) -> dict:
     if case["transport"] == "unix" and d.p(0.25):
         case["stale"] = True          # a socket file left behind at the address by an earlier process (asyncio replaces it)
     case["log_debug"] = d.p(0.12)
+    case["port_str"] = case["transport"] == "tcp" and d.p(0.25)
     case["busy"] = d.p(0.35) and not case["cli"]       # the pool has two running tasks all along: clients come and go around them
     if d.p(0.3):
         # keyword arguments the server passes through to asyncio.start_server / start_unix_server
@@ -142,7 +143,7 @@ class C19Engine(Engine):
             del c["events"][i]
             c["stop_at"] = min(c["stop_at"], len(c["events"]))
             out.append(c)
-        for key in ("cli", "dual", "restart", "restart_early", "busy", "log_debug"):
+        for key in ("cli", "dual", "restart", "restart_early", "busy", "log_debug", "port_str"):
             if case.get(key):
                 c = copy.deepcopy(case)
                 c[key] = False
@@ -192,7 +193,10 @@ class C19Engine(Engine):
                 host = case.get("host", "127.0.0.1")
                 if host == "::1" and not HAVE_IPV6:
                     host = "127.0.0.1"
-                server: Any = TCPControlServer(pool, host=host, port=0, **skw)
+                # the port may be given as a string (the signature says int | str)
+                server: Any = TCPControlServer(pool, host=host, port="0" if case.get("port_str") else 0, **skw)
+                if case.get("port_str"):
+                    labels.add("tcp-port-given-as-string")
                 labels.add("tcp-host:" + host)
             else:
                 if case.get("stale"):
